@@ -2560,3 +2560,106 @@ func init() {
 func init() {
 	addDoc("C09", "R09j borrowed locals do not survive a refill: forward may-dataflow over every library function (bits holds/stale per value, borrow definitions = source calls, repository functions returning borrowed slices, borrowed parameters); a refill (source call or any repository function reaching one) makes every held value stale; any read of a stale value (call argument, element load, string conversion, copy/append of elements, store outside locals, return, capture) is a violation.")
 }
+
+// ---------------------------------------------------------------- bit sets indexed by unbounded positions
+
+// shiftsBounded: `1 << i` is 0 for i >= the width of the type, silently: a bit set kept in a machine word and indexed by
+// a position the schema or the input controls (column index, child index, depth) forgets every position from 64 on.
+// Every shift whose amount is not a constant must be dominated by a comparison that bounds the amount below the width
+// (seed C06-10: per-envelope "column done" flags moved from []bool to a uint64).
+func shiftsBounded(c *core.Ctx, rule string, pkgs []string) {
+	c.SSA()
+	n := 0
+	for _, f := range c.RepoFunctions() {
+		if core.IsCLIOrSample(core.FuncPkg(f)) || !inPkgs(core.FuncPkg(f), pkgs) {
+			continue
+		}
+		for _, b := range f.Blocks {
+			for _, in := range b.Instrs {
+				bo, ok := in.(*ssa.BinOp)
+				if !ok || (bo.Op != token.SHL && bo.Op != token.SHR) {
+					continue
+				}
+				if _, isConst := bo.Y.(*ssa.Const); isConst {
+					continue
+				}
+				n++
+				key := core.FuncKey(f) + " shifts by a variable amount"
+				// the amount (through conversions) compared with a constant <= 64 on a dominating edge
+				amt := bo.Y
+				for {
+					if cv, ok := amt.(*ssa.Convert); ok {
+						amt = cv.X
+						continue
+					}
+					break
+				}
+				bounded := false
+				for _, blk := range f.Blocks {
+					if len(blk.Instrs) == 0 {
+						continue
+					}
+					ifi, ok := blk.Instrs[len(blk.Instrs)-1].(*ssa.If)
+					if !ok {
+						continue
+					}
+					cmp, ok := ifi.Cond.(*ssa.BinOp)
+					if !ok {
+						continue
+					}
+					var k int64
+					var op token.Token
+					if cmp.X == amt || cmp.X == bo.Y {
+						v, isK := c03intConst(cmp.Y)
+						if !isK {
+							continue
+						}
+						k, op = v, cmp.Op
+					} else {
+						continue
+					}
+					var edge *ssa.BasicBlock
+					switch op {
+					case token.LSS:
+						if k <= 64 {
+							edge = blk.Succs[0]
+						}
+					case token.LEQ:
+						if k < 64 {
+							edge = blk.Succs[0]
+						}
+					case token.GEQ:
+						if k <= 64 {
+							edge = blk.Succs[1]
+						}
+					case token.GTR:
+						if k < 64 {
+							edge = blk.Succs[1]
+						}
+					}
+					if edge != nil && len(edge.Preds) == 1 && (edge == b || edge.Dominates(b)) {
+						bounded = true
+					}
+				}
+				c.Check(bounded, rule, key, core.InstrPos(in), "the shift amount is bounded below the word width on a dominating edge",
+					"the shift amount is not a constant and no dominating comparison bounds it below the word width: for amounts >= 64 the result is silently 0, so a bit set indexed this way loses every position from 64 on")
+			}
+		}
+	}
+	c.OK(rule, "variable shifts", 0, fmt.Sprintf("%d shift(s) by a non-constant amount in %v", n, pkgs))
+}
+
+func init() {
+	wrapRun("C06", func(c *core.Ctx) {
+		if c.CountRule("R06o") == 0 {
+			shiftsBounded(c, "R06o", []string{"extensions/omniv21/fileformat"})
+		}
+	})
+	wrapRun("C05", func(c *core.Ctx) {
+		if c.CountRule("R05m") == 0 {
+			shiftsBounded(c, "R05m", []string{"extensions/omniv21/fileformat/flatfile", "extensions/omniv21/fileformat/edi"})
+		}
+	})
+	addDoc("C06", "R06o every shift by a non-constant amount is bounded below the word width (no machine-word bit set indexed by column positions).")
+	addDoc("C05", "R05m as R06o for the hierarchical readers.")
+}
